@@ -161,13 +161,24 @@ def stepAuth (c : CS) (l : Line) : CS :=
           | none => c
         else c
 
+def hexNat4 (s : String) : Nat := s.toList.foldl (fun acc ch => acc * 16 + (if ch.isDigit then ch.toNat - 48 else if 'a' ≤ ch ∧ ch ≤ 'f' then ch.toNat - 87 else 0)) 0
+
 def polOp (l : Line) (vals : Bytes) (g : Nat) : Option PolicyOp :=
   let cc := (l.str "cc")
   if cc = "16b" then some .authValue else if cc = "18c" then some .password
   else if cc = "16c" then some (.commandCode (l.nat "code"))
   else if cc = "171" then some (.or (((l.str "digests").splitOn ",").map (fun h => (Line.hexBytes h).getD [])))
   else if cc = "17f" then some (.pcr (l.bytes "sel") vals (l.bytes "given") g)
-  else if cc = "180" then some .restart else none
+  else if cc = "180" then some .restart
+  -- the assertions that only extend the digest; what is hashed into it is assembled here from the command's parameters
+  else if cc = "16f" then some (.assert 0x16F [UInt8.ofNat (l.nat "loc")])
+  else if cc = "16e" ∨ cc = "170" ∨ cc = "190" then some (.assert (hexNat4 cc) (l.bytes "h"))
+  else if cc = "18f" then some (.assert 0x18F [UInt8.ofNat (l.nat "w")])
+  else if cc = "187" then some (.assert 0x187 [])
+  else if cc = "16d" then some (.assert 0x16D (Crypto.hash Crypto.sha256 (l.bytes "operand" ++ be16 (l.nat "offset") ++ be16 (l.nat "op"))))
+  else if cc = "188" then some (.assert 0x188 ((if l.nat "include" = 1 then l.bytes "obj" else []) ++ l.bytes "parent" ++ [UInt8.ofNat (l.nat "include")]))
+  else if cc = "151" then some (.update 0x151 (l.bytes "name") (l.bytes "ref"))
+  else none
 
 def step (c : CS) (l : Line) : CS :=
   let c := { c with line := c.line + 1 }
